@@ -54,7 +54,7 @@ func (fr *frame) bumpAlloc(st *state) {
 func (fr *frame) callWithArgs(st *state, c *ssa.CallCommon, instr ssa.Instruction, pos token.Pos, args []string) []string {
 	// call-site assertions of the enclosing contract ("at" clauses), keyed by the call's source text
 	text := fr.anchorText(pos, "callfull")
-	if fr.top && len(fr.fc.c.At) > 0 {
+	if len(fr.fc.c.At) > 0 {
 		if cls, ok := fr.fc.c.At[text]; ok && instr != nil {
 			if fr.fc.atHit == nil {
 				fr.fc.atHit = map[string]bool{}
